@@ -79,7 +79,7 @@ C02_AccessorsAgree ==
   \A r \in R : LET o == Obs[r] IN
     /\ S(o.heads) = S(o.rawheads) /\ S(o.heads) = S(o.snapheads) /\ S(o.heads) = S(o.jsonheads)
     /\ NoDup(o.heads) /\ NoDup(o.rawheads) /\ NoDup(o.snapheads) /\ NoDup(o.jsonheads)
-    /\ NoDup(o.ents) /\ o.len = Len(o.ents)
+    /\ NoDup(o.ents) /\ o.len = Len(o.ents) /\ o.nilkeys = 0
 
 \* C03: the linearisation is a causal, sorted permutation of the entries
 C03_Permutation ==
@@ -124,16 +124,18 @@ C01_NoOpJoins ==
         /\ post[ev.r].values = pre[ev.r].values]_vars
 
 \* C05: append-only
+\* (a Fork replaces replica ev.r by a NEW log instance: its pre and post are different logs)
+SameLog(r) == ~(ev.op = "F" /\ r = ev.r)
 C05_EntriesMonotone ==
-  [][IsStep => \A r \in R : post[r].pure =>
+  [][IsStep => \A r \in R : post[r].pure /\ SameLog(r) =>
         /\ S(pre[r].ents) \subseteq S(post[r].ents)
         /\ pre[r].len <= post[r].len]_vars
 C05_ValuesSubsequence ==
-  [][IsStep => \A r \in R : post[r].pure /\ pre[r].pure /\ StrictOn(UU, Fn, S(post[r].ents)) =>
+  [][IsStep => \A r \in R : post[r].pure /\ pre[r].pure /\ SameLog(r) /\ StrictOn(UU, Fn, S(post[r].ents)) =>
         IsSubsequence(pre[r].values, post[r].values)]_vars
 DigOf(o, x) == LET i == CHOOSE k \in DOMAIN o.ents : o.ents[k] = x IN <<o.digs[i], o.getdigs[i]>>
 C05_DigestsStable ==
-  [][IsStep => \A r \in R : post[r].pure =>
+  [][IsStep => \A r \in R : post[r].pure /\ SameLog(r) =>
         /\ \A x \in S(pre[r].ents) \cap S(post[r].ents) : DigOf(pre[r], x) = DigOf(post[r], x)
         /\ \A i \in DOMAIN post[r].ents : post[r].digs[i] = post[r].getdigs[i]]_vars
 \* the same content for the same hash in every replica (no replica holds an altered copy)
@@ -141,6 +143,11 @@ C05_OneContentPerHash ==
   \A r, s \in R : \A x \in S(Obs[r].ents) \cap S(Obs[s].ents) : DigOf(Obs[r], x)[1] = DigOf(Obs[s], x)[1]
 C05_OthersUntouched ==
   [][IsStep => \A r \in R : r # ev.r => post[r] = pre[r]]_vars
+\* whatever happens to one log, every other log keeps listing and returning its own entries
+C05_IndexIntact ==
+  \A r \in R : LET o == Obs[r] IN
+     /\ NoDup(o.ents) /\ o.nilkeys = 0
+     /\ \A i \in DOMAIN o.ents : o.digs[i] = o.getdigs[i] /\ o.digs[i] # 0
 
 \* C04: the entry returned by Append
 C04_Append ==
@@ -323,6 +330,15 @@ M_Tamper ==
        /\ post[ev.r].ents = pre[ev.r].ents /\ post[ev.r].rawheads = pre[ev.r].rawheads
        /\ post[ev.r].clk = pre[ev.r].clk /\ post[ev.r].nidx = pre[ev.r].nidx
        /\ BadIdsOf(post[ev.r]) = BadIdsOf(pre[ev.r]) \cup {ev.n}]_vars
+
+M_Fork ==
+  [][IsStep /\ ev.op = "F" /\ ~ev.div =>
+       LET r == ev.r  s == ev.s IN
+       /\ post[r].ents = pre[s].ents                      \* same key order as the source's index
+       /\ post[r].rawheads = pre[s].heads
+       /\ S(post[r].nidx) = NextsOf(UU, S(pre[s].ents))
+       /\ post[r].clk = MaxTimeOf(UU, pre[s].heads, 0)
+       /\ post[r].ident = pre[r].ident]_vars
 
 M_SetIdentity ==
   [][IsStep /\ ev.op = "SI" =>
